@@ -1,6 +1,6 @@
 import Bt.Engine.Ops
 /-! Concrete `Rat` fixtures used by the satisfiability `example`s of C07 / C03 / C02. -/
-namespace Bt.Ex
+namespace Bt.LEx
 
 def cfg : Cfg Rat := { tol := 1/1000000, par := 100, atol := 1/100000000, half := 1/2, one := 1, iterCap := 10000 }
 
@@ -47,4 +47,4 @@ def sub : StratData Rat := {
   rPrice := [100, 100, 0], rValue := [100, 100, 0], rNotl := [0, 0, 0], rCash := [100, 100, 0],
   rFees := [0, 0, 0], rFlows := [0, 0, 0], rBidofferPaid := [0, 0, 0] }
 
-end Bt.Ex
+end Bt.LEx
